@@ -409,9 +409,14 @@ class Path:
             ob.discharged += 1
             ob.backends.add('z3-' + z3.get_version_string())
         elif r == z3.sat:
-            m = self.solver.model()
-            ob.failed.append({'inputs': self.model_inputs(m, z3.Not(e)),
-                              'decisions': list(self.decisions[:self.pos])})
+            if len(ob.failed) < 2:
+                m = self.solver.model()
+                ob.failed.append({'inputs': self.model_inputs(m, z3.Not(e)),
+                                  'decisions':
+                                  list(self.decisions[:self.pos])})
+            else:
+                ob.failed.append({'inputs': None, 'decisions':
+                                  list(self.decisions[:self.pos])})
         else:
             r2 = self.x.second_opinion(self.solver, z3.Not(e))
             if r2 == 'unsat':
@@ -437,18 +442,23 @@ class Path:
     def model_inputs(self, m, extra=None):
         """Concrete values of the named inputs.  Tries to find a model with
         short byte strings / small numbers first (nicer replays)."""
-        small = []
-        for name, (kind, t) in self.inputs.items():
-            if kind == 'bytes':
-                small.append(t[1] <= 4096)
-        if small:
+        for bound in (48, 4096):
+            small = []
+            for name, (kind, t) in self.inputs.items():
+                if kind == 'bytes':
+                    small.append(t[1] <= bound)
+            if not small:
+                break
             self.solver.push()
             if extra is not None:
                 self.solver.add(extra)
             self.solver.add(*small)
-            if self.solver.check() == z3.sat:
+            ok = self.solver.check() == z3.sat
+            if ok:
                 m = self.solver.model()
             self.solver.pop()
+            if ok:
+                break
         out = {}
         for name, (kind, t) in self.inputs.items():
             if kind == 'int':
